@@ -373,3 +373,168 @@ def search_witness(ctx, divs, per_cfg=24, max_cfgs=3):
                 found += 1
     ctx.coverage["witness_search"] = {"runs": len(jobs), "witnesses": found}
     return found
+
+
+# ---------------------------------------------------------------------------------------------------------------
+# Adversarial-peer runs: the real core incl. the real distributed/mpi.c on top of a fake MPI library in which rank 1
+# is played by a hostile but legal peer (harness/fakempi_impl.h). Deterministic (token scheduler + one PRNG), dense
+# in the rare remote paths: anti-messages overtaking their event, several early anti-messages per LP, remote
+# anti-messages for the oldest history entry, cancelled responses, new-colour messages right before a GVT report.
+
+def build_peer(ctx):
+    srcs = [os.path.join(vlib.HARNESS, "hrun.c")] + ctx.core_sources(mpi=True)
+    return ctx.cc("hrun_peer", srcs, extra=["-I" + os.path.join(vlib.HARNESS, "fakempi")], defs=["VERIF_FAKE_PEER"])
+
+
+def peer_configs(ctx, n, salt=0):
+    rnd = random.Random(ctx.seed * 6007 + 31 + salt)
+    out = []
+    for i in range(n):
+        batch = rnd.choice([0, 2, 6, 6, 16])
+        c = {
+            "seed": rnd.randrange(1, 1 << 30), "mseed": rnd.randrange(1, 1 << 30),
+            "lps": rnd.choice([2, 4, 5, 6, 8, 10]), "types": rnd.choice([2, 3, 4]), "fan": rnd.choice([2, 3, 4]),
+            "thr": rnd.choice([60, 120, 200, 300]), "spread": rnd.choice([0, 10, 30]),
+            "rng": rnd.choice([0, 1]), "mem": rnd.choice([0, 1, 1]), "t0": 0,
+            "threads": rnd.choice([1, 2, 2, 3]), "ckpt": rnd.choice([1, 2, 3, 7, 0]),
+            "period": rnd.choice([0, 0, 10, 1000]), "burst": rnd.choice([0, 5, 20, 60, 200]),
+            "stay": rnd.choice([0, 2, 3]), "pseed": rnd.randrange(1, 1 << 40), "budget": 3000000,
+            "batch": batch, "pev": rnd.choice([600, 1000, 1500]) if batch == 0 else rnd.choice([100, 250, 400]),
+            "pcancel": rnd.choice([10, 25, 50]), "preflect": rnd.choice([0, 30, 70]), "plag": rnd.choice([0, 3, 10]),
+            "pspread": rnd.choice([4, 16, 40]), "page": rnd.choice([10, 40, 200]), "pspan": rnd.choice([30, 400]),
+            "pwin": rnd.choice([8, 24, 100]),
+        }
+        if i % 5 == 4:
+            # early-frozen LPs whose history is emptied again and again: the next remote event lands in slot 0
+            c.update({"thr": 20, "spread": rnd.choice([0, 5]), "ckpt": rnd.choice([1, 2]), "period": 0, "batch": rnd.choice([2, 4]),
+                      "pev": rnd.choice([300, 600]), "mem": 0, "rng": 0})
+        out.append(c)
+    return out
+
+
+def peer_exactly_once(ops_lines, c_lines):
+    """S oracle, independent of the Lean model: every event received from the peer and never cancelled by it that lies below
+    the final GVT is committed exactly once at its LP; an event cancelled by the peer is never committed; nothing is committed
+    twice. Returns a list of failure descriptions."""
+    ev, cancelled, gvt, committed, fails = {}, set(), {}, {}, []
+    for o, c in zip(ops_lines, c_lines):
+        w = o.split()
+        if not w:
+            continue
+        if w[0] == "rrecv":
+            ev[int(w[2])] = (int(w[3]), int(w[4]), (int(w[7]) & ~3, int(w[8])))
+        elif w[0] == "rrecva":
+            cancelled.add((int(w[5]) & ~3, int(w[6])))
+        elif w[0] == "gvt":
+            gvt[int(w[1])] = int(w[2])
+        elif w[0] == "ffree" and w[5] == "0":
+            committed[int(w[3])] = committed.get(int(w[3]), 0) + 1
+        elif w[0] == "fini" and w[5] == "0":
+            o_ = int(w[3])
+            if o_ in ev and ev[o_][1] < gvt.get(int(w[1]), 0):
+                committed[o_] = committed.get(o_, 0) + 1
+    fin = min(gvt.values()) if gvt else 0
+    for o_, (dest, tq, mid) in ev.items():
+        n = committed.get(o_, 0)
+        if mid in cancelled and n:
+            fails.append("cancelled remote event ord=%d lp=%d tq=%d id=%s was committed" % (o_, dest, tq, mid))
+        elif mid not in cancelled and n > 1:
+            fails.append("remote event ord=%d lp=%d tq=%d committed %d times" % (o_, dest, tq, n))
+        elif mid not in cancelled and n == 0 and tq < fin:
+            fails.append("remote event ord=%d lp=%d tq=%d below the final GVT %d was never committed (lost)" % (o_, dest, tq, fin))
+    return fails
+
+
+def run_peer(ctx, cfg, tag):
+    ops, cf = ctx.path("pops_%s" % tag), ctx.path("pc_%s" % tag)
+    args = [ctx.path("hrun_peer"), "rank", ops, cf] + ["%s=%s" % kv for kv in sorted(cfg.items())]
+    rc, out = vlib.run(args, timeout=600, env={"ASAN_OPTIONS": "detect_leaks=0"})
+    stats = None
+    for l in out.splitlines():
+        if "{" in l and l.rstrip().endswith("}"):
+            try:
+                stats = json.loads(l[l.index("{"):])
+            except ValueError:
+                pass
+    res = {"cfg": cfg, "rc": rc, "stats": stats or {"outcome": "crash"}, "out": out[-1500:], "mode": "peer", "div": None, "lines": 0,
+           "sample": [], "s_fails": []}
+    res["outcome"] = res["stats"]["outcome"]
+    o_f, c_f = ops + ".0", cf + ".0"
+    if os.path.exists(o_f) and os.path.exists(c_f):
+        lf = c_f + ".lean"
+        ok = ctx.driver("par", o_f, lf)
+        o = open(o_f, errors="replace").read().splitlines()
+        c = open(c_f, errors="replace").read().splitlines()
+        l = open(lf, errors="replace").read().splitlines()
+        n = min(len(c), len(l), len(o))
+        res["lines"] = n
+        for i in range(n):
+            if c[i] != l[i]:
+                res["div"] = {"line": i + 1, "op": o[i][:200], "impl": c[i], "model": l[i]}
+                break
+        if res["div"] is None and res["outcome"] == "ok" and (len(c) != len(l) or not ok):
+            res["div"] = {"line": n + 1, "op": "<length>", "impl": "%d lines" % len(c), "model": "%d lines" % len(l)}
+        if res["outcome"] == "ok":
+            res["s_fails"] = peer_exactly_once(o, c)[:5]
+        res["sample"] = [x for x in c if x.split()[0] in ("early", "ematch", "rb")][:3]
+        for f in (o_f, c_f, lf):
+            try:
+                os.remove(f)
+            except OSError:
+                pass
+    for f in (ops + ".g.0",):
+        try:
+            os.remove(f)
+        except OSError:
+            pass
+    return res
+
+
+PEER_ORACLES = ("s_rb_mismatch", "s_below_gvt", "s_gvt_decrease", "s_gvt_disagree", "s_double_free", "s_vote_false_pred")
+
+
+def peer_matrix(ctx, n_quick, n_thorough, salt=0, jobs=12):
+    """returns an Agg of adversarial-peer runs, obligations and violations registered"""
+    import concurrent.futures
+    ctx.trusted.append("adversarial-peer runs: rank 1 is played by harness/fakempi_impl.h behind a fake <mpi.h>; the real mpi.c, gvt.c, "
+                       "process.c run unchanged; the peer is legal by construction (unique ids, one anti per event, GVT contribution a "
+                       "lower bound of everything it sends/cancels later, exact colour accounting, eventual delivery) - a mistake in "
+                       "that construction would show as a false alarm, not as a missed violation")
+    if not build_peer(ctx):
+        return None
+    n = n_quick if ctx.tier == "quick" else n_thorough
+    cfgs = peer_configs(ctx, n, salt)
+    agg = Agg()
+    sf = []
+    with concurrent.futures.ThreadPoolExecutor(max_workers=jobs) as ex:
+        for r in ex.map(lambda ic: run_peer(ctx, ic[1], "p%d" % ic[0]), enumerate(cfgs)):
+            agg.add(r)
+            if r["s_fails"]:
+                sf.append(r)
+    ctx.oblige("correspondence:peer (LP-level re-execution of %d adversarial-peer runs, %d trace lines: remote events, remote and early "
+               "anti-messages, free-at-GVT, GVT values)" % (agg.runs, agg.lines), not agg.divs,
+               json.dumps({"cfg": agg.divs[0]["cfg"], "div": agg.divs[0]["div"]}) if agg.divs else "")
+    for r in sf[:3]:
+        ctx.violation("remote-event-not-exactly-once", {"cfg": r["cfg"], "failures": r["s_fails"]}, True)
+    for r in agg.crashes[:3]:
+        ctx.violation("runtime-crash", {"cfg": r["cfg"], "mode": "peer", "first_divergence": r.get("div"), "output": r["out"][-600:]}, True)
+    for k in PEER_ORACLES:
+        if agg.tot.get(k, 0):
+            bad = [r["cfg"] for r in [] ]
+            ctx.violation("oracle:" + k, {"count": agg.tot[k], "mode": "peer"}, True)
+    for r in agg.hang_other[:3]:
+        # a hang that is not the known F1 signature: in peer runs the flush loop of gvt_msg_drain does not poll MPI, which is
+        # the multi-rank variant of F1 (stage 1 everywhere); anything else is reported
+        pts = r["stats"].get("points", [])
+        if pts and all(p["stage"] in (1, 2) for p in pts):
+            agg.f1 += 1
+        else:
+            ctx.violation("hang", {"cfg": r["cfg"], "points": pts, "mode": "peer"}, True)
+    t = agg.tot
+    ctx.coverage["peer_mode"] = {"runs": agg.runs, "trace_lines_compared": agg.lines, "outcomes": agg.outcomes,
+                                 "peer_events": t.get("peer_events", 0), "peer_antis": t.get("peer_antis", 0),
+                                 "early_antis": t.get("early_antis", 0), "responses": t.get("peer_responses", 0),
+                                 "antis_sent_to_peer": t.get("peer_got_antis", 0), "gvt_rounds": t.get("peer_rounds", 0),
+                                 "rollbacks": t.get("rollbacks", 0), "fossil_collections": t.get("fossil", 0),
+                                 "known_shutdown_hangs": agg.f1}
+    return agg
